@@ -8,10 +8,10 @@ Property theorems only, over `Model/Chan.lean`, for **every** history of applica
 history leads to `c`), any number of senders, any message values.
 
 The model follows local-channel/src/mpsc.rs line by line except for `close`, which it models as the
-property demands (wakes the parked receiver; a closed channel drains and ends).  On the unchanged
-tree `parked_woken_by_close` and `closed_drains_then_none` are false of the implementation
-(DESIGN.md §7 F5; replays in `corpus/C16/`, fix in `fixes/C16-close-wakes.patch`); the differential
-run reports exactly that until the fix is applied.
+property demands (wakes the parked receiver; a closed channel drains and ends).  On the original
+tree `parked_woken_by_close` and `closed_drains_then_none` were false of the implementation
+(DESIGN.md §7 F5; replays in `corpus/C16/f5-*.ops`); `fixes/C16-close-wakes.patch` (applied to /repo)
+makes the code behave as modelled, and the differential run checks that on every run.
 -/
 namespace ActixNet.C16
 open ActixNet ActixNet.Chan
@@ -166,7 +166,7 @@ example : (run init [.clone 0, .poll 1, .dropSender 0, .dropSender 1, .poll 1]).
     some [.sender 1, .polled .pending, .senderDropped none, .senderDropped (some 1), .polled (.ready none)] := by decide
 
 /-- A parked receiver is woken by `close` (through any sender).
-**False of the unchanged tree** (F5): `Sender::close` only clears `has_receiver`. -/
+**Was false of the original tree** (F5): `Sender::close` only cleared `has_receiver`. -/
 theorem parked_woken_by_close (c c' : Chan) (w : WakerId) (i : Nat) (o : Obs)
     (hp : c.parked = some w) (hs : step c (.close i) = some (c', o)) :
     o = .closed (some w) ∧ c'.parked = none := by
@@ -182,7 +182,7 @@ example : (run init [.poll 3, .close 0, .poll 3]).map (·.2) =
 
 /-- Once the channel has been closed (by any sender, earlier in the history) or has no sender left,
 `poll_next` never parks: it hands out the head of the buffer, and `None` once the buffer is empty.
-**False of the unchanged tree** (F5) in the closed-with-a-live-sender case. -/
+**Was false of the original tree** (F5) in the closed-with-a-live-sender case. -/
 theorem closed_drains_then_none (ops : List Op) (c : Chan) (os : List Obs) (w : WakerId)
     (hr : run init ops = some (c, os)) (ha : c.recvAlive = true)
     (h : (∃ j, Op.close j ∈ ops) ∨ c.senders = []) :
